@@ -299,7 +299,7 @@ func compactChoices(c []int) string {
 }
 
 func c11Race(w *core.W) {
-	racer := filepath.Join(verifDirProps(), ".build", "racer")
+	racer := filepath.Join(verifDirProps(), core.BuildDirName(), "racer")
 	out, err := exec.Command(racer).CombinedOutput()
 	text := string(out)
 	n := strings.Count(text, "WARNING: DATA RACE")
